@@ -20,6 +20,14 @@ def scenario(rng, k, tier):
     cur_roc = 0
     seq = rng.choice([0, 100, 32768, 60000, 65000, 65000, 65530, 65535])
     started = rng.random() < 0.75
+    # stratified (the purely random draw left out, for some seeds, the two situations in which the imposed index lies within
+    # 2^15 of the current one, i.e. the commit path WITHOUT index-advance):
+    #   klass 1: a running stream that has reached ROC >= 1 is told its own current ROC
+    #   klass 2: a running stream just below a wrap is told ROC+1 and the next packet is the first one after the wrap
+    klass = k % 5
+    if klass in (1, 2):
+        started = True
+        seq = rng.choice([65000, 65400, 65530]) if klass == 2 else rng.choice([60000, 65000])
     def send(seqv, expect_roc, refused_first=0):
         pkt = rtp_packet(ssrc, seqv & 0xffff, payload=bytes([seqv & 0xff] * 8))
         L.append(pkt_op("protect", 1, pkt, cap=len(pkt) + 20, mode=0))
@@ -37,16 +45,33 @@ def scenario(rng, k, tier):
         info.append((a, expect_roc, pkt))
     true_idx = seq
     if started:
-        for _ in range(rng.choice([1, 3, 10, 30])):
+        for _ in range(rng.choice([1, 3, 10, 30]) if klass not in (1, 2) else (30 if klass == 1 else 3)):
             send(true_idx, true_idx >> 16)
-            true_idx += rng.choice([1, 1, 2, 5, 3000, 3000, 9000])
+            true_idx += rng.choice([1, 1, 2, 5, 3000, 3000, 9000]) if klass != 2 else rng.choice([1, 2])
+    if klass == 3:
+        # klass 3: a running stream at ROC >= 1 with its sequence number in the lower half is told its own ROC again, and the
+        # next packet is more than 2^15 ahead inside that ROC (index-advance path although the ROC does not change)
+        true_idx = rng.choice([60000, 65000])
+        while True:
+            send(true_idx, true_idx >> 16)
+            if (true_idx >> 16) >= 1 and (true_idx & 0xffff) < 25000:
+                break
+            true_idx += 5000
     # r relative to the ROC the next packet would naturally have: equal (no jump) or ahead; sometimes behind
     nat = true_idx >> 16
     r = nat + rng.choice([0, 0, 0, 1, 2, 7, 1000]) if rng.random() < 0.9 else max(0, nat - 1)
+    if klass in (1, 3):
+        r = nat
+    elif klass == 2:
+        r = nat + 1
     r = min(r, 0xfffffff0)
     L.append(f"setroc 1 {H(ssrc)} {H(r)}"); L.append(f"setroc 2 {H(ssrc)} {H(r)}")
     behind = r < nat
-    if not behind:
+    if klass == 3:
+        true_idx += rng.choice([32769, 33000, 40000])
+    elif not behind and klass == 2:
+        true_idx = (r << 16) | rng.randrange(0, 40)          # the natural continuation across the wrap
+    elif not behind:
         true_idx = (r << 16) | (true_idx & 0xffff)
         # a third of the histories: the first packet after set_roc is far ahead (more than half the sequence space) inside
         # that same ROC, so it goes through the index-advance path even when r equals the current ROC
@@ -164,7 +189,7 @@ def corpus_setroc_zero():
 
 def families(tier, seed):
     rng = random.Random(seed * 1000 + 16)
-    n = 10 if tier == "quick" else 120
+    n = 15 if tier == "quick" else 120
     scripts = [("corpus-setroc-zero", corpus_setroc_zero())]
     for k in range(n):
         txt, behind = scenario(rng, k, tier)
